@@ -8,7 +8,7 @@
                     second pass = first pass. *)
 From Coq Require Import List ZArith NArith QArith Qcanon Bool.
 Import ListNotations.
-Require Import UPV.Core.Expr UPV.Core.Eval UPV.Core.Interp UPV.Walkers.Simplify.
+Require Import UPV.Core.Expr UPV.Core.Eval UPV.Core.Interp UPV.Walkers.Simplify UPV.Proofs.Simplify_wf.
 
 Record case := {
   c_obj_ty : list (N * N);
@@ -16,6 +16,7 @@ Record case := {
   c_fl_ty : list (N * N);
   c_if_ty : list (N * N);
   c_anc : list (N * list N);
+  c_tau : list (N * N);                  (* variable id -> user type id *)
   c_stat : list (N * list expr * expr);
   c_itab : list (N * list expr * expr);
   c_e : expr;
@@ -31,7 +32,7 @@ Fixpoint lookup_tab (f : N) (args : list expr) (t : list (N * list expr * expr))
   end.
 
 Definition cfg_of (c : case) : cfg :=
-  {| obj_ty := fun o => match lookupN o (c_obj_ty c) with Some t => t | None => 0%N end;
+  {| obj_ty := fun o => lookupN o (c_obj_ty c);
      par_ty := fun p => lookupN p (c_par_ty c);
      fl_ty := fun f => lookupN f (c_fl_ty c);
      if_ty := fun f => lookupN f (c_if_ty c);
@@ -76,4 +77,9 @@ Definition ok_fv (c : case) : bool :=
 Definition ok_idem (c : case) : bool :=
   match c_out c with None => true | Some o => oexpr_eqb (c_out2 c) (Some o) end.
 
-Definition ok (c : case) : bool := ok_struct c && ok_value c && ok_fv c && ok_idem c.
+(* the generated expression lies inside the domain of the soundness theorem (side condition wfx; every user type of the
+   generated worlds has objects, so QT = all types) *)
+Definition hyp_ok (c : case) : bool :=
+  wfx (fun x => match lookupN x (c_tau c) with Some t => t | None => 0%N end) (fun _ => true) (free_vars (c_e c)) (c_e c).
+
+Definition ok (c : case) : bool := ok_struct c && ok_value c && ok_fv c && ok_idem c && hyp_ok c.
